@@ -225,6 +225,40 @@ def multi_schema(rng):
     return decorate(rng, ents, p_abstract=0.3)
 
 
+def random_expr_noor(rng, names):
+    """AND/ANDOR only, each name once"""
+    names = list(names)
+    if len(names) == 1:
+        return ("ent", names[0])
+    rng.shuffle(names)
+    cut = rng.randint(1, len(names) - 1)
+    return (rng.choice(["and", "andor"]), random_expr_noor(rng, names[:cut]), random_expr_noor(rng, names[cut:]))
+
+
+def orfree_schema(rng):
+    """single-supertype graph whose emitted lists contain no OrList: no ONEOF, every sub-supertype ABSTRACT
+    (the fragment of C08_sound_complete_partial)"""
+    n = rng.randint(3, 8)
+    names = list(NAMES[:n])
+    rng.shuffle(names)
+    ents = []
+    for i, nm in enumerate(names):
+        sup = [] if i == 0 or (i == 1 and rng.random() < 0.2) else [rng.choice(names[:i])]
+        ents.append({"name": nm, "abstract": False, "supers": sup, "expr": None})
+    subs = subs_of(ents)
+    for e in ents:
+        ss = subs[e["name"]]
+        if not ss:
+            continue
+        chosen = [x for x in ss if rng.random() < 0.75]
+        if chosen:
+            e["expr"] = random_expr_noor(rng, chosen)
+        e["abstract"] = bool(e["supers"]) or rng.random() < 0.5     # roots may or may not be abstract
+    order = list(ents)
+    rng.shuffle(order)
+    return order
+
+
 def render_schema(schema, name="c08"):
     out = [f"SCHEMA {name};"]
     for e in schema:
